@@ -415,3 +415,118 @@ func Verif_C20_E2_MemAdapter() {
 	it.Close()
 	vsym.Reach("end")
 }
+
+// ---- E4: write batches of the in-memory engine (default radix backend, and btree) against a reference:
+// put / delete / delete-range / counter merge applied atomically and in order on Commit; a cleared batch
+// leaves nothing behind, also when the batch object is reused. The engine's own data structures
+// (engine/radixdb + go-immutable-radix, engine/btree.go) are executed from source. ----
+
+type c20Ref struct{ k, v [][]byte }
+
+func (r *c20Ref) find(k []byte) int {
+	for i := range r.k {
+		if len(r.k[i]) == len(k) && bytes.Equal(r.k[i], k) {
+			return i
+		}
+	}
+	return -1
+}
+func (r *c20Ref) put(k, v []byte) {
+	if i := r.find(k); i >= 0 {
+		r.v[i] = v
+		return
+	}
+	r.k = append(r.k, k)
+	r.v = append(r.v, v)
+}
+func (r *c20Ref) del(k []byte) {
+	if i := r.find(k); i >= 0 {
+		r.k = append(r.k[:i], r.k[i+1:]...)
+		r.v = append(r.v[:i], r.v[i+1:]...)
+	}
+}
+func (r *c20Ref) get(k []byte) []byte {
+	if i := r.find(k); i >= 0 {
+		return r.v[i]
+	}
+	return nil
+}
+func (r *c20Ref) clone() *c20Ref {
+	return &c20Ref{append([][]byte{}, r.k...), append([][]byte{}, r.v...)}
+}
+
+func c20U64(v uint64) []byte {
+	b := make([]byte, 8)
+	for i := 0; i < 8; i++ {
+		b[i] = byte(v >> (8 * uint(i)))
+	}
+	return b
+}
+
+func Verif_C20_E4_MemWriteBatch() {
+	// the default backend; engine/btree.go uses unsafe pointer casts between node layouts and is outside the interpreter
+	useMemType = memTypeRadix
+	me := &memEng{cfg: &RockEngConfig{}, engOpened: 1}
+	r, err := NewRadix()
+	vsym.Assert(err == nil, "radix")
+	me.radixMemI = r
+	keys := [][]byte{vsym.Bytes("ka", 1), vsym.Bytes("kb", 1)}
+	vsym.Assume(keys[0][0] < keys[1][0])
+	committed := &c20Ref{}
+	wbI, err := newMemWriteBatch(me)
+	vsym.Assert(err == nil, "batch")
+	var wb WriteBatch = wbI
+	pending := committed.clone()
+	nops := 3
+	if vsym.Thorough() {
+		nops = 4
+	}
+	for i := 0; i < nops; i++ {
+		k := keys[vsym.Choose("key", 2)]
+		switch vsym.Choose("op", 6) {
+		case 0:
+			v := c20U64(vsym.U64("putval") % 16)
+			wb.Put(k, v)
+			pending.put(k, v)
+		case 1:
+			wb.Delete(k)
+			pending.del(k)
+		case 2:
+			d := vsym.U64("mergeval") % 16
+			wb.Merge(k, c20U64(d))
+			var old uint64
+			if ov := pending.get(k); len(ov) == 8 {
+				for j := 0; j < 8; j++ {
+					old |= uint64(ov[j]) << (8 * uint(j))
+				}
+			}
+			pending.put(k, c20U64(old+d))
+		case 3:
+			wb.DeleteRange(keys[0], keys[1]) // [ka, kb)
+			pending.del(keys[0])
+		case 4:
+			wb.Clear()
+			pending = committed.clone()
+		case 5:
+			vsym.Assert(wb.Commit() == nil, "commit")
+			committed = pending
+			pending = committed.clone()
+		}
+		if i == nops-1 {
+			// whatever is still pending is committed at the end
+			vsym.Assert(wb.Commit() == nil, "final commit")
+			committed = pending
+		}
+		// an uncommitted batch is not visible
+		for _, kk := range keys {
+			got, err := me.GetBytes(kk)
+			vsym.Assert(err == nil, "read")
+			want := committed.get(kk)
+			vsym.Assert((got == nil) == (want == nil), "reads see exactly the committed batches: presence")
+			if got != nil && want != nil {
+				vsym.Assert(len(got) == len(want) && vsym.BytesEq(got, want), "reads see exactly the committed batches: value")
+			}
+		}
+	}
+	vsym.Reach("end")
+}
